@@ -7,7 +7,7 @@ WHY = {
  "C08-c2": "value-level: which map loses an entry when a supervoxel's count in a block drops to zero (the block entry instead of the count)",
  "C08-c4": "ordering of the mapping/log step before a per-block rejection: the unchanged code also has error exits behind that step, so no must-precede rule separates the two",
  "C09-a1": "value-level: row stride of a local variable (ny for nx) in BinaryBlock.Read; no size object is involved that R18.6 could see",
- "C09-b1": "value-level: a sentinel (MaxUint64) that is itself a legal label in encodeBlock's first pass",
+ "C09-b1": "value-level: a sentinel (MaxUint64) that is itself a legal label in encodeBlock's first pass; a 'every voxel's label goes through the map' rule would also fire on a correct cache of the previous label, so none is armed",
  "C09-b2": "value-level: where the 'all requested labels located' exit is tested in WriteBinaryBlocks' table scan",
  "C09-b3": "value-level: a dropped index indirection (curIndices[]) in one of three branches of writeRLEs",
  "C09-b4": "value-level: which of two size fields (volume vs block) is passed to MakeSolidBlock",
@@ -20,14 +20,15 @@ WHY = {
  "C15-b4": "value-level: a plausibility bound (128:1) on the LZ4 ratio rejects legitimate data (the unchanged tree now has the format's own 255:1 bound)",
  "C16-a1": "value-level: which fields a conditional update keeps",
  "C16-b2": "value-level: which _user/_time stamps a conditional update rewrites",
- "C16-c1": "value-level: an integral float is no longer normalised to the integer list in checkField",
+ "C16-c1": "value-level: an integral float is no longer normalised to the integer list in checkField; the same behaviour could be had on the query side, so a rule on this branch would reject correct code",
  "C17-a1": "value-level: a byte offset loses its bytes-per-voxel factor in the YZ-slice copy of readBlock (wrong only for multi-byte voxels)",
  "C17-a4": "value-level: the order of two span comparisons in roi InsideFast (the x1 test hoisted before the y/z match)",
  "C17-b4": "value-level: boolean logic of Isotropy2D's early returns",
  "C17-c4": "value-level: InsideFast no longer advances to the next span of the same row (the exits it takes are still lexicographically guarded, so R18.9 is satisfied)",
  "C18-b1": "value-level: a stale local (the un-clipped start) in the max-X clip of RLEs.FitToBounds",
  "C18-b3": "a versioned query filtered by instance-level (unversioned) Z extents: would need a notion of which fields are per version",
- "C18-c2": "value-level: `else if` instead of `if` between the left and right extension in RLEs.Add",
+ "C18-c2": "value-level: `else if` instead of `if` between the left and right extension in RLEs.Add (legacy labelvol only)",
+ "C18-e3": "value-level: the '+X neighbour' test of WriteRLEs (x+1 == x') weakened to an order comparison; an exact-form rule on the comparison would be a frozen fragment",
  "C19-b3": "value-level: which ancestors calcVersionPath keeps",
  "C20-b2": "value-level: order of swap-with-last deletions",
  "C20-c3": "ordering: a consistency check moved behind the block rewrite in SplitLabels (split endpoint, off by default); 'validate before the first store write' is not a shape the unchanged handlers share",
